@@ -54,6 +54,7 @@ class Parsed:
         self.entries = []
         self.builtins = []      # (accessor, node, its type)
         self.errors = []
+        self.late = []          # late re-observations (`recheck`): Call-like records with key, inst, result, obs
         self.complete = False
 
 
@@ -85,6 +86,14 @@ def parse_probe(text):
             c.result, c.w, c.line = m.group(5), int(m.group(6)), ln
             P.calls.append(c)
             cur = c
+        elif tag == 'L':
+            key, inst, result = rest.rsplit(' ', 2)
+            c = Call()
+            c.key, c.inst, c.result, c.args, c.sorts, c.w, c.line = key, int(inst), result, [], [], 0, ln
+            P.late.append(c)
+            cur = c
+        elif tag == 'LEND':
+            cur = None
         elif tag == 'U':
             key, inst, what = rest.split(' ')
             if cur is not None and cur.key == key and cur.inst == int(inst):
@@ -538,6 +547,37 @@ class Sweep:
 
     def last_key(self):
         return self.P.calls[-1].key if self.P.calls else None
+
+
+def late_differences(P):
+    """[(call, node, field, first value, late value)]: what a node returned by a factory (or an object created with it) reports when
+    it is read again after every other factory call of the sweep, against what it reported right after its own call."""
+    first = {(c.key, c.inst): c for c in P.calls}
+    out = []
+    for l in P.late:
+        c = first.get((l.key, l.inst))
+        if c is None or c.result != l.result:
+            continue
+        for name, (kind, fields) in c.obs.items():
+            if name not in l.obs:
+                continue
+            kind2, fields2 = l.obs[name]
+            if kind2 != kind:
+                out.append((c, name, '<kind>', kind, kind2))
+                continue
+            d2 = dict(fields2)
+            for f, v in fields:
+                if f in d2 and d2[f] != v and not _grew(v, d2[f]):
+                    out.append((c, name, f, v, d2[f]))
+    return out
+
+
+def _grew(a, b):
+    """a member sequence that gained members at its end (the one change the statement allows)"""
+    if not (a.startswith('[') and a.endswith(']') and b.startswith('[') and b.endswith(']')):
+        return False
+    ea, eb = split_top(a[1:-1]) if a != '[]' else [], split_top(b[1:-1]) if b != '[]' else []
+    return len(ea) < len(eb) and eb[:len(ea)] == ea
 
 
 def expected_rows():
